@@ -12,6 +12,7 @@ repeated slashes, ...), all queries, all endpoints (scheme, host, base path) and
 import Olla.Model.Url
 import Olla.Spec.C16
 import Olla.Gen.Urls
+import Olla.Spec.State
 
 namespace Olla.Props.C16
 open Olla.Model.Url
@@ -832,5 +833,16 @@ example : (buildTarget .pinned "/a/%2e%2e/../b".toList [] { witnessEp with prese
 example : plainBase "/api/v1/".toList = true ∧ plainBase "/api/../v1".toList = false ∧ plainRel "/health".toList = true ∧
     plainPath "/v1/models".toList = true ∧ noDotDot "/a/../b".toList = false := by decide
 example : resolveURLPath "/engines/llama.cpp/".toList "/v1/models".toList = "/engines/llama.cpp/v1/models".toList := by decide
+
+/-! ### tie: no process-wide state on the modelled path
+
+The theorems above are about single calls (or the history of one object). They cover every
+request of a running process only if a call reaches no state that outlives it besides that
+object. `Olla.Gen.State` is re-read from the source on every run: the package-level variables
+reachable from each function inside its package that the package changes after initialisation. -/
+theorem C16_tie_no_process_wide_state :
+    Olla.Spec.State.reachesOnly "common.BuildTargetURL" [] = true ∧
+    Olla.Spec.State.reachesOnly "util.ResolveURLPath" [] = true ∧
+    Olla.Spec.State.reachesOnly "util.StripPrefix" [] = true := by decide
 
 end Olla.Props.C16
